@@ -14,6 +14,7 @@ import (
 	"syscall"
 	"time"
 
+	zcmd "github.com/internetarchive/Zeno/cmd"
 	"github.com/internetarchive/Zeno/internal/pkg/config"
 	"github.com/internetarchive/Zeno/internal/pkg/controler"
 	"github.com/internetarchive/Zeno/internal/pkg/controler/pause"
@@ -506,6 +507,9 @@ func execDiskStart(in string) Result {
 		return neutral("bad-input")
 	}
 	thr &^= 1023
+	if thr%gib == 0 && pos != "default" {
+		thr += 1024 // a FRACTIONAL number of GiB, as an operator may well give (0.5, 62.25)
+	}
 	if pos != "default" && thr == 0 {
 		return neutral("trivial:volume-too-full")
 	}
@@ -537,8 +541,13 @@ func execDiskStart(in string) Result {
 	if err != nil {
 		self, _ = filepath.Abs(os.Args[0])
 	}
-	cmd := exec.Command(self, "diskstartchild", cwd, "j", fmt.Sprintf("%016x", math.Float64bits(ms)), marker, jobsDir)
+	msText := "-" // flag absent
+	if pos != "default" {
+		msText = strconv.FormatFloat(ms, 'g', -1, 64) // shortest text that parses back to exactly ms
+	}
+	cmd := exec.Command(self, "diskstartchild", cwd, "j", msText, marker, jobsDir)
 	cmd.Dir = cwd
+	cmd.Env = append(os.Environ(), "HOME="+scratch) // no stray ~/zeno-config.yaml
 	var out strings.Builder
 	cmd.Stdout, cmd.Stderr = &out, &out
 	if err := cmd.Start(); err != nil {
@@ -642,34 +651,35 @@ func execDiskStart(in string) Result {
 	}
 }
 
-// diskstartchild <cwd> <job> <min-space bits, hex> <marker file> <job volume dir>:
-// the configuration the CLI would build (JobPath = jobs/<job>, relative to the working directory), then
-// the real controler.Start() and, when it returns, controler.Stop().
+// diskstartchild <cwd> <job> <--min-space-required text, "-" = flag absent> <marker file> <job volume dir>:
+// the configuration comes from the REAL command line path (cmd.Run(): cobra flags -> viper -> config.InitConfig ->
+// GenerateCrawlConfig; JobPath = jobs/<job>, relative to the working directory), then the real controler.Start()
+// and, when it returns, controler.Stop().
 func runDiskStartChild(a []string) {
-	cwd, job, marker, jobVol := a[0], a[1], a[3], a[4]
-	bits, _ := strconv.ParseUint(a[2], 16, 64)
+	cwd, job, msText, marker, jobVol := a[0], a[1], a[2], a[3], a[4]
 	must(os.Chdir(cwd))
 	mf, err := os.OpenFile(marker, os.O_CREATE|os.O_WRONLY|os.O_APPEND, 0o644)
 	must(err)
-	must(config.InitConfig())
-	c := config.Get()
-	c.Job = job
-	c.WorkersCount = 1
-	c.MaxConcurrentAssets = 1
-	c.DisableSeencheck = true
-	c.WARCPoolSize = 1
-	c.WARCQueueSize = -1
-	c.DisableLocalDedupe = true
-	c.WARCPrefix = "ZENO"
-	c.WARCSize = 1024
-	c.DisableRateLimit = true
-	c.HTTPTimeout, c.HTTPReadDeadline = -1, 60
-	c.NoStdoutLogging, c.NoStderrLogging, c.NoFileLogging = true, true, true
-	c.UserAgent = "zv-diskstart"
-	c.MinSpaceRequired = math.Float64frombits(bits)
-	must(config.GenerateCrawlConfig())
-	c.MinSpaceRequired = math.Float64frombits(bits)
+	// the operator's command line; everything not given keeps the CLI's defaults
+	argv := []string{"get", "url", "--job", job, "--no-stdout-log", "--no-stderr-log", "--no-log-file",
+		"--disable-seencheck", "--disable-local-dedupe", "--disable-rate-limit"}
+	if msText != "-" {
+		argv = append(argv, "--min-space-required", msText)
+	}
+	argv = append(argv, "http://127.0.0.1:9/")
+	err = zcmd.VerifRun(argv, func(args []string) error {
+		// what `get url` does (cmd/get_url.go), minus the seeds (nothing is to be fetched) and with the markers
+		if err := config.GenerateCrawlConfig(); err != nil {
+			return err
+		}
+		diskStartRun(mf, jobVol)
+		return nil
+	})
+	fmt.Println("command line not accepted:", err)
+	os.Exit(6)
+}
 
+func diskStartRun(mf *os.File, jobVol string) {
 	total, avail, ok := availOf(jobVol)
 	if !ok {
 		fmt.Println("statfs of the job volume failed")
